@@ -146,6 +146,36 @@ int main(int argc, char** argv)
         // parser object held the next declaration of the grid before
         for (size_t di = 0; di < decls.size(); di++)
             for_all_vectors(alpha, a.asan() ? 1 : 2, ctx, [&](const std::vector<std::string>& av) { chk.used_before(ctx, decls[di], decls[(di + 9) % decls.size()], av, {}); });
+        // (1d) sizes: many occurrences (beyond what a narrow counter or a small fixed table holds), as separate tokens, in one
+        // bundle, as long spellings, mixed with the second toggle
+        for (size_t di = 0; di < decls.size(); di++)
+        {
+            const Decl& D = decls[di];
+            if (D.items[0].sh.empty() || D.items[0].tdef != 0 || !D.items[0].env.empty())
+                continue;
+            for (size_t n : { 127u, 128u, 255u, 256u, 257u, 1000u, 65536u })
+            {
+                if (a.asan() && n > 1000)
+                    continue;
+                std::vector<std::vector<std::string>> avs;
+                avs.push_back(std::vector<std::string>(n, "-t"));
+                avs.push_back({ "-" + std::string(n, 't') });
+                avs.push_back(std::vector<std::string>(n, "--tog"));
+                if (D.items.size() > 1)
+                {
+                    std::string mix;
+                    for (size_t i = 0; i < n; i++)
+                        mix += i % 3 ? 't' : 'u';
+                    avs.push_back({ "-" + mix });
+                }
+                for (auto& av : avs)
+                {
+                    long idx = ctx.next;
+                    ctx.each([&] { return chk.describe(D, av, {}); },
+                             [&](mc::Report& rep) { chk.run_case(D, av, {}, rep, idx); });
+                }
+            }
+        }
         // (2) environment words through parse(), with and without the toggle on the command line
         for (auto& D : decls)
         {
